@@ -680,6 +680,17 @@ def apply_rewrites(text, rewrites):
             if n_ == 0:
                 raise Undecided(f"R12: identifier {rw[1]} not found")
             text = ed_.apply()
+        elif rw[0] == "EXTEND":   # R17: `x.extend(E)` (std Extend trait method on a local map x) -> `map_extend(&mut x, E)`
+            toks_ = tokenize(text)
+            ed_ = Edit(text)
+            n_ = 0
+            for k_, t_ in enumerate(toks_):
+                if t_.text == "extend" and toks_[k_ - 1].text == "." and toks_[k_ + 1].text == "(" and toks_[k_ - 2].kind == "ident" and toks_[k_ - 3].text != ".":
+                    ed_.replace(toks_[k_ - 2].start, toks_[k_ + 1].end, f"map_extend(&mut {toks_[k_ - 2].text}, ")
+                    n_ += 1
+            if n_ == 0:
+                raise Undecided("R17: no `x.extend(..)`")
+            text = ed_.apply()
         elif rw[0] == "ROOT":
             text = rewrite_ROOT(text, rw[1], rw[2], rw[3], rw[4] if len(rw) > 4 else True)
         elif rw[0] == "ANF":
